@@ -1,6 +1,166 @@
-/- C08 — model not written yet (stub so that the driver target exists). -/
-namespace Nitime.C08
+/-
+C08 — coherence measures: executable driver of the model in `CohBase.lean` (instance `Cx`).
 
-def handle (_args : List String) : String := "bad-op"
+Line protocol (after the property id):
+  welch <what> <NFFT> <noverlap|dfunc|dan> <Fs> <win> <lb> <ub> <chan0> <chan1> …
+      win = `hann` | list of window values;  lb, ub = floats, ub may be `none`
+      what ∈ freqs | coherency | coherence | phase | aphase | delay | adelay | cohbavg | cybavg
+             | partial | partialcur | apartial
+  spec  <what> <nchan> <f> <lb> <ub> <fxy[0][0]> <fxy[0][1]> … (upper triangle, row-major, complex)
+      what ∈ coherency | coherence | aphase | cohbavg | apartial
+  mt <N> <nchan> <nt> then per channel: nt complex rows (tapered spectra), nt real rows (weights)
+Results: `ok <flattened list>`; complex values as interleaved re,im.
+-/
+import Nitime.Model.CohBase
+
+namespace Nitime.C08
+open Nitime.Coh Nitime.Coh.CScalar
+
+/-- `np.fft.fftfreq(NFFT, 1/Fs)[:numFreqs]` bit for bit (last one sign-fixed for even NFFT) -/
+def mlabFreqs (Fs : Float) (NFFT : Nat) : List Float :=
+  let val := 1.0 / (NFFT.toFloat * (1.0 / Fs))
+  (List.range (nFreq NFFT)).map fun k => k.toFloat * val
+
+def parseUb? (s : String) : Option (Option Float) :=
+  if s = "none" then some none else (Proto.parseFloat? s).map some
+
+def parseWin? (s : String) (NFFT : Nat) : Option (List Cx) :=
+  if s = "hann" then some ((hanning NFFT).map Cx.ofF)
+  else (Proto.parseFloatList? s).map (·.map Cx.ofF)
+
+/-- table of a semi-filled spectrum (computed once per operation): entries for i ≤ j only -/
+def specTable (n nf : Nat) (spec : Nat → Nat → Nat → Cx) : Array Cx := Id.run do
+  let mut a : Array Cx := Array.mkEmpty (n * n * nf)
+  for i in [0:n] do
+    for j in [0:n] do
+      for k in [0:nf] do
+        a := a.push (if i ≤ j then spec i j k else ⟨0.0, 0.0⟩)
+  return a
+
+def readTable (tbl : Array Cx) (n nf : Nat) (i j k : Nat) : Cx := tbl.getD ((i * n + j) * nf + k) ⟨0.0, 0.0⟩
+
+def flat3 (n m nf : Nat) (f : Nat → Nat → Nat → Cx) : List Cx :=
+  (List.range n).flatMap fun i => (List.range m).flatMap fun j => (List.range nf).map fun k => f i j k
+
+def flat2 (n m : Nat) (f : Nat → Nat → Cx) : List Cx :=
+  (List.range n).flatMap fun i => (List.range m).map fun j => f i j
+
+/-- the operations that only need a spectral matrix `spec` (read for i ≤ j), its frequency grid
+    `f` and the band `lb, ub` -/
+def specOps (what : String) (n nf : Nat) (spec : Nat → Nat → Nat → Cx) (f : List Float)
+    (lb : Float) (ub : Option Float) : Option String :=
+  let fK : Nat → Cx := fun k => Cx.ofF (f.getD k 0.0)
+  match what with
+  | "coherency" => some ("ok " ++ showCx (flat3 n n nf (coherencyMat spec)))
+  | "coherence" => some ("ok " ++ showRe (flat3 n n nf (coherenceMat spec)))
+  | "phase" => some ("ok " ++ showRe (flat3 n n nf fun i j k =>
+        if i = j then Cx.ofF 0.0 else phaseMat spec i j k))
+  | "aphase" => some ("ok " ++ showRe (flat3 n n nf (phaseMat spec)))
+  | "adelay" => some ("ok " ++ showRe (flat3 n n nf fun i j k => delayOf (phaseMat spec i j k) (fK k)))
+  | "delay" =>
+      -- coherency_phase_delay: bounds from get_bounds, `if lb_idx == 0: lb_idx = 1`
+      let (l0, u) := getBounds f lb ub
+      let l := if l0 = 0 then 1 else l0
+      some ("ok " ++ toString l ++ " " ++ toString u ++ " " ++
+        showRe (flat3 n n (u - l) fun i j t => delayOf (phaseMat spec i j (l + t)) (fK (l + t))))
+  | "cohbavg" =>
+      -- coherence_bavg: `if lb == 0: lb_idx = 1`
+      let (l0, u) := getBounds f lb ub
+      let l := if lb == 0.0 then 1 else l0
+      some ("ok " ++ showRe (flat2 n n (bavgMat coherenceBavg spec l u)))
+  | "cybavg" =>
+      let (l0, u) := getBounds f lb ub
+      let l := if lb == 0.0 then 1 else l0
+      some ("ok " ++ showCx (flat2 n n (bavgMat coherencyBavg spec l u)))
+  | "partial" =>
+      -- coherence_partial(time_series[:-1], r = time_series[-1]): intended orientation
+      let r := n - 1
+      some ("ok " ++ showRe (flat3 r r nf fun i j k => partialOf spec i j r k))
+  | "partialcur" =>
+      let r := n - 1
+      some ("ok " ++ showRe (flat3 r r nf fun i j k =>
+        if i ≤ j then partialOfCurrent spec i j r k else partialOfCurrent spec j i r k))
+  | "apartial" =>
+      -- CoherenceAnalyzer.coherence_partial[i][j][r]: zero when r ∈ {i, j}
+      some ("ok " ++ showRe ((List.range n).flatMap fun i => (List.range n).flatMap fun j =>
+        (List.range n).flatMap fun r => (List.range nf).map fun k =>
+          if r = i ∨ r = j then Cx.ofF 0.0 else partialOf spec i j r k))
+  | _ => none
+
+def handleWelch (args : List String) : Option String := do
+  match args with
+  | what :: sN :: sO :: sFs :: sWin :: sLb :: sUb :: chans =>
+    let NFFT ← sN.toNat?
+    let nov ← (if sO = "dfunc" then some (denseDefaultOverlap NFFT)   -- get_spectra: int(np.ceil(NFFT // 2))
+               else if sO = "dan" then some 32                         -- analysis: tsa.default_n_overlap
+               else sO.toNat?)
+    let Fs ← Proto.parseFloat? sFs
+    let lb ← Proto.parseFloat? sLb
+    let ub ← parseUb? sUb
+    let X ← parseChans? chans
+    if NFFT = 0 ∨ nov ≥ NFFT then return "err ValueError"   -- mlab: 'noverlap must be less than NFFT'
+    let w ← parseWin? sWin NFFT
+    if w.length ≠ NFFT then return "err ValueError"
+    let n := X.length
+    let nf := nFreq NFFT
+    let step := NFFT - nov
+    let f := mlabFreqs Fs NFFT
+    if what = "freqs" then
+      return "ok " ++ Proto.showFloatList f ++ " " ++
+        showRe ((List.range nf).map fun k => welchFreq (Cx.ofF Fs) NFFT k)
+    let tbl := specTable n nf fun i j k => welchBin w (Cx.ofF Fs) NFFT step (X.getD i []) (X.getD j []) k
+    specOps what n nf (readTable tbl n nf) f lb ub
+  | _ => none
+
+def handleSpec (args : List String) : Option String := do
+  match args with
+  | what :: sn :: sf :: sLb :: sUb :: rest =>
+    let n ← sn.toNat?
+    let f ← Proto.parseFloatList? sf
+    let lb ← Proto.parseFloat? sLb
+    let ub ← parseUb? sUb
+    let rows ← rest.mapM parseCxList?
+    let nf := f.length
+    -- upper triangle row-major: index of (i, j), i ≤ j
+    let idx := fun (i j : Nat) => i * n - i * (i - 1) / 2 + (j - i)
+    let arr := rows.toArray.map (·.toArray)
+    let spec : Nat → Nat → Nat → Cx := fun i j k => (arr.getD (idx i j) #[]).getD k ⟨0.0, 0.0⟩
+    specOps what n nf spec f lb ub
+  | _ => none
+
+def splitAtN {α} (n : Nat) (xs : List α) : List α × List α := (xs.take n, xs.drop n)
+
+def handleMt (args : List String) : Option String := do
+  match args with
+  | sN :: sn :: snt :: rest =>
+    let N ← sN.toNat?
+    let n ← sn.toNat?
+    let nt ← snt.toNat?
+    if rest.length ≠ 2 * n * nt then none
+    let mut sp : Array (List (List Cx)) := #[]
+    let mut ws : Array (List (List Cx)) := #[]
+    let mut cur := rest
+    for _ in [0:n] do
+      let (a, r1) := splitAtN nt cur
+      let (b, r2) := splitAtN nt r1
+      sp := sp.push (← a.mapM parseCxList?)
+      ws := ws.push (← parseChans? b)
+      cur := r2
+    let L := N / 2 + 1
+    -- coh_mat[i, j] for j < i, mirrored; the diagonal as the analyzer leaves it
+    let coh : Nat → Nat → Nat → Cx := fun i j k =>
+      if i = j then mtCoherence N nt (sp.getD i []) (sp.getD i []) (ws.getD i []) (ws.getD i []) k
+      else
+        let (a, b) := if j < i then (i, j) else (j, i)
+        mtCoherence N nt (sp.getD a []) (sp.getD b []) (ws.getD a []) (ws.getD b []) k
+    return "ok " ++ showRe (flat3 n n L coh)
+  | _ => none
+
+def handle (args : List String) : String :=
+  match args with
+  | "welch" :: rest => (handleWelch rest).getD "bad-op"
+  | "spec" :: rest => (handleSpec rest).getD "bad-op"
+  | "mt" :: rest => (handleMt rest).getD "bad-op"
+  | _ => "bad-op"
 
 end Nitime.C08
